@@ -241,6 +241,13 @@ class QGen:
         exp = ""
         if r.random() < 0.5 or not frac:
             exp = r.choice(["e", "E"]) + r.choice(["", "+", "-"]) + r.choice(["0", "1", "2", "00", "01", "02", "3", "10"])
+        if ip == "0" and frac in ("", ".0", ".00") and r.random() < 0.35:
+            # zero is zero whatever the exponent: legal spellings whose exponent no float could hold
+            exp = r.choice(["e", "E"]) + r.choice(["", "+", "-"]) + r.choice(["308", "309", "400", "999", "1000", "4999", "0400"])
+        elif r.random() < 0.05:
+            # tiny magnitudes: the exponent underflows to zero (negative exponents only; overflowing literals are disputed)
+            exp = r.choice(["e", "E"]) + "-" + r.choice(["324", "400", "999"])
+            frac = frac or ".5"
         return neg + ip + frac + exp
 
     def literal(self, near=_MISSING):
